@@ -455,6 +455,16 @@ fn callback(s: &mut Sys, frames: usize, l: &str, out: &mut Out) {
 						if param != mapping.map(src) {
 							ofail(out, &mut reported, "sys_reader_same_chunk", format!("{} :: sound {} source={}", l, i, j));
 						}
+						// "input clamped to the mapping's range": at or beyond an end of the input range the
+						// output is that end of the output range (independent of Mapping::map)
+						let (i0, i1) = mapping.input_range;
+						let (o0, o1) = mapping.output_range;
+						let beyond0 = (i0 < i1 && src <= i0) || (i1 < i0 && src >= i0);
+						let beyond1 = (i0 < i1 && src >= i1) || (i1 < i0 && src <= i1);
+						let tol = 1e-12 * (1.0 + o0.abs() + o1.abs());
+						if (beyond0 && (param - o0).abs() > tol) || (beyond1 && (param - o1).abs() > tol) {
+							ofail(out, &mut reported, "sys_mapping_clamps", format!("{} :: sound {} source={}", l, i, j));
+						}
 					}
 					None => {
 						if param.to_bits() != sb.last_param.to_bits() {
